@@ -5,6 +5,7 @@ import (
 	"encoding/hex"
 	"encoding/json"
 	"fmt"
+	"strings"
 	"time"
 
 	"github.com/btcsuite/btcd/btcec/v2"
@@ -23,7 +24,7 @@ func init() {
 }
 
 const numInWit = 12
-const numOutWit = 5
+const numOutWit = 9
 
 func coreLocks(tier string) []RunSpec {
 	var out []RunSpec
@@ -295,10 +296,24 @@ func (lr *lockRun) outputWitness(c *LockCfg, o *HOutput, idx, ov int) string {
 		for i := 0; i < threshold && i < len(uniq); i++ {
 			sigs = append(sigs, SignMsg(kr.Priv[uniq[i]], []byte(o.B_), 0))
 		}
+	case 5, 6, 7, 8: // correctly signed; the HTLC preimage is empty / absent / wrong / not hex
+		for i := 0; i < threshold && i < len(uniq); i++ {
+			sigs = append(sigs, SignMsg(kr.Priv[uniq[i]], bb, 0))
+		}
 	}
 	w := map[string]any{"signatures": sigs}
 	if c.HTLC {
-		w["preimage"] = c.Preimage
+		switch ov {
+		case 5:
+			w["preimage"] = ""
+		case 6:
+		case 7:
+			w["preimage"] = strings.Repeat("ab", 32)
+		case 8:
+			w["preimage"] = "zz" + c.Preimage
+		default:
+			w["preimage"] = c.Preimage
+		}
 	}
 	b, _ := json.Marshal(w)
 	return string(b)
@@ -399,7 +414,7 @@ func (lr *lockRun) step(rc *RunCtx, i int) {
 		if v, ok := rc.Spec.Params["wv"]; ok && a == 0 {
 			wv = v
 		}
-		ov := T.Pick("att.ov", 4, 1, 1, 1, 1)
+		ov := T.Pick("att.ov", 4, 1, 1, 1, 1, 1, 1, 1, 1)
 		if v, ok := rc.Spec.Params["ov"]; ok && a == 0 {
 			ov = v
 		}
